@@ -64,9 +64,9 @@ def storage(rng, D, csc, block_of, unsorted, zeros_in, zeros_out):
     return {"nmaj": n, "nmin": n, "indptr": indptr, "indices": indices, "data": data}
 
 
-def mk(M, csc):
+def mk(M, csc, e=0):
     cls = sps.csc_matrix if csc else sps.csr_matrix
-    return cls((np.array(M["data"], dtype=float), np.array(M["indices"], dtype=np.int32),
+    return cls((np.array(M["data"], dtype=float) * 2.0 ** e, np.array(M["indices"], dtype=np.int32),
                 np.array(M["indptr"], dtype=np.int32)), shape=(M["nmaj"], M["nmin"]))
 
 
@@ -115,10 +115,11 @@ def guarded(f):
         return {"err": ERRN[type(e).__name__], "msg": str(e)[:200]}
 
 
-def frac_inverse_defect(D, Ai, tol=Fraction(1, 10**9)):
-    """max |D.Ai - I|, |Ai.D - I| in exact rationals; None if within tol."""
+def frac_inverse_defect(D, Ai, tol=Fraction(1, 10**9), e=0):
+    """max |D.Ai - I|, |Ai.D - I| in exact rationals (D = integers * 2**e); None if within tol."""
     n = len(D)
-    Df = [[Fraction(int(x)) for x in r] for r in D]
+    sc = Fraction(2) ** e
+    Df = [[Fraction(int(x)) * sc for x in r] for r in D]
     Af = [[Fraction(float(x)) for x in r] for r in Ai]
     if len(Af) != n or any(len(r) != n for r in Af):
         return "shape"
@@ -150,7 +151,11 @@ class C37(Prop):
         "two-sided inverse of each square block (np.linalg.inv = hypothesis); (2) Q.B^-1.P is the "
         "two-sided inverse of A when P.A.Q = B for invertible P, Q; permutation matrices of "
         "mutually inverse index lists are mutually inverse; the row slicer A[p,:] is the product "
-        "with the permutation matrix; (3) bisection (np.searchsorted) on an array partitioned by "
+        "with the permutation matrix; (2') for the slicer model of "
+        "invert_permuted_block_diag_matrix itself (row/column slicers and transposes, "
+        "entries A[rp_i][cp_j]) and ALL permutations rp, cp: if Bi inverts the block form, the "
+        "mapped-back matrix is a two-sided inverse of A (C37_permuted_inverse), with the "
+        "permutation test of the tie proved sound; (3) bisection (np.searchsorted) on an array partitioned by "
         "the key returns the partition point; for every well-formed csr/csc storage (unsorted "
         "indices, empty lines) none of whose stored entries straddles a block boundary the "
         "boundaries searchsorted(indices, cumsum(sizes)) are the index pointers of the block "
@@ -170,20 +175,23 @@ class C37(Prop):
         "NOT proved (covered by the per-case evaluation in Coq and the oracle only): that the "
         "scatter of a block's slice reproduces the dense sub-block (checked per case as "
         "block_diag(extracted blocks) = to_dense A, and the blocks equal those handed to "
-        "np.linalg.inv); that the column slicer equals the product with a permutation matrix "
-        "(checked per case); that connected components of a nonsingular matrix are square "
+        "np.linalg.inv); the matrix form P.A.Q of the column slicer (checked per case; superseded by the "
+        "entrywise theorem C37_permuted_inverse); that connected components of a nonsingular matrix are square "
         "(the code asserts it; the component search of networkx is re-computed by a closure "
         "iteration in the model and its output validated per case by comps_closed); the layout "
-        "produced by block_diag_matrix (C35 oracle); floating-point rounding of np.linalg.inv "
+        "produced by block_diag_matrix (indptr and indices compared with the model per case, "
+        "its dense meaning not proved); floating-point rounding of np.linalg.inv "
         "(tolerance 1e-9 on integer matrices with integer inverses). Matrices with duplicate "
         "entries in one line (non-canonical storage) are not generated: the inverters assign "
         "instead of summing duplicates.")
     rule = ("block-diagonal integer matrices: 1-6 blocks of size 1-4 (thorough 1-6), each a "
             "product of unit-triangular integer matrices with row permutation/sign flips "
             "(integer inverse); csr or csc; indices shuffled inside lines; explicitly stored "
-            "zeros inside and outside the blocks; zero entries in the size array; permuted "
-            "case: random row and column permutations of such a matrix, stored zeros, plus "
-            "matrices with non-square components (AssertionError branch). Non-trivial = at "
+            "zeros inside and outside the blocks; zero entries in the size array; blocks stored in full with shuffled indices "
+            "(diagonally dominant integer blocks); permuted "
+            "case: permuted diagonal matrices (singleton blocks, non-symmetric pattern), random row and column permutations of such a matrix, stored zeros, plus "
+            "matrices with non-square components (AssertionError branch). All values scaled by an exact power of two "
+            "2^e (e = 0, |e| <= 8, or 40 <= |e| <= 60). Non-trivial = at "
             "least two blocks or a block of size >= 2.")
     trusted = [
         "np.linalg.inv returns a two-sided inverse of each dense block (Section hypothesis inv_ok); "
@@ -200,10 +208,53 @@ class C37(Prop):
     def generate(self, rng, n, tier):
         big = tier != "quick"
         for k in range(n):
-            if k % 3 == 2:
-                yield self.g_perm(rng, big)
+            if k % 8 == 5:
+                c = self.g_permdiag(rng, big)
+            elif k % 8 == 7:
+                c = self.g_full(rng, big)
+            elif k % 3 == 2:
+                c = self.g_perm(rng, big)
             else:
-                yield self.g_bd(rng, big)
+                c = self.g_bd(rng, big)
+            # exact power-of-two scaling of all values, over many orders of magnitude
+            c["e"] = rng.choice([0, 0, rng.randint(-8, 8), rng.randint(40, 60), -rng.randint(40, 60)])
+            yield c
+
+    def g_permdiag(self, rng, big):
+        """Row/column permuted DIAGONAL matrix (all blocks singletons): the sparsity
+        pattern is that of a permutation which in general is not an involution."""
+        n = rng.randint(3, 10 if big else 8)
+        perm = rng.sample(range(n), n)
+        A = np.zeros((n, n), dtype=int)
+        for i, j in enumerate(perm):
+            A[i, j] = rng.choice([-4, -2, -1, 1, 2, 4, 8])
+        zs = []
+        if rng.random() < 0.3:
+            i, j = rng.randrange(n), rng.randrange(n)
+            if A[i, j] == 0:
+                zs.append([i, j])
+        return {"kind": "perm", "D": A.tolist(), "stored_zeros": zs}
+
+    def g_full(self, rng, big):
+        """Hand-built (data, indices, indptr) in which EVERY block is stored in full (no
+        zero entry) with the indices of each line in random order."""
+        nb = rng.randint(1, 5)
+        sizes = [rng.randint(1, 4) for _ in range(nb)]
+        same = rng.random() < 0.5
+        if same:
+            sizes = [sizes[0]] * nb
+        n = sum(sizes)
+        D = np.zeros((n, n), dtype=int)
+        block_of, off = [], 0
+        for b, s in enumerate(sizes):
+            B = np.array([[rng.choice([-3, -2, -1, 1, 2, 3]) for _ in range(s)] for _ in range(s)])
+            B = B + np.diag([rng.choice([-1, 1]) * (4 * s) for _ in range(s)])  # diagonally dominant
+            D[off:off + s, off:off + s] = B
+            block_of += [b] * s
+            off += s
+        csc = rng.random() < 0.4
+        M = storage(rng, D, csc, block_of, unsorted=rng.random() < 0.85, zeros_in=0, zeros_out=0)
+        return {"kind": "bd", "csc": csc, "M": M, "sz": list(sizes)}
 
     def _blocks(self, rng, big):
         smax = 6 if big and rng.random() < 0.3 else 4
@@ -261,8 +312,9 @@ class C37(Prop):
 
         if case["kind"] == "bd":
             csc = case["csc"]
+            e = case.get("e", 0)
             sz = np.array(case["sz"], dtype=np.int64)
-            calls, blocks = [], []
+            calls, blocks, layout = [], [], []
             real_ss, real_inv = np.searchsorted, np.linalg.inv
 
             def ss(a, v, *args, **kw):
@@ -275,17 +327,18 @@ class C37(Prop):
                 return real_inv(B, *args, **kw)
 
             def py():
-                A = mk(case["M"], csc)
+                A = mk(case["M"], csc, e)
                 before = (A.indptr.copy(), A.indices.copy(), A.data.copy())
                 with patched(np, "searchsorted", ss), patched(np.linalg, "inv", inv):
                     R = mo.invert_diagonal_blocks(A, sz.copy(), method="python")
                 after = (A.indptr, A.indices, A.data)
                 assert all(np.array_equal(x, y) for x, y in zip(before, after)), \
                     "argument modified"
+                layout.append((ints(R.indptr), ints(R.indices)))
                 return np.asarray(R.toarray(), dtype=float).tolist()
 
             def nb():
-                A = mk(case["M"], csc)
+                A = mk(case["M"], csc, e)
                 R = mo.invert_diagonal_blocks(A, sz.copy(), method="numba")
                 return np.asarray(R.toarray(), dtype=float).tolist()
 
@@ -297,11 +350,13 @@ class C37(Prop):
                    "nnz": nnz[0] if nnz else None}
             if "ok" in rpy:
                 # the block as the line-wise model sees it: transposed for csc
-                res["blocks"] = [(B.T if csc else B).tolist() for B in blocks]
+                res["blocks"] = [((B.T if csc else B) / 2.0 ** e).tolist() for B in blocks]
+                res["layout"] = layout[0]
             return res
 
         # permuted block-diagonal matrix
-        D = np.array(case["D"], dtype=float)
+        e = case.get("e", 0)
+        D = np.array(case["D"], dtype=float) * 2.0 ** e
         n = D.shape[0]
         A = sps.csr_matrix(D)
         if case["stored_zeros"]:
@@ -332,23 +387,24 @@ class C37(Prop):
 
         res["inv"] = guarded(run)
         if captured:
-            res["abd"] = [ints(r) for r in captured[0][0]]
+            res["abd"] = [ints(r) for r in captured[0][0] / 2.0 ** e]
         return res
 
     # ---------------------------------------------------------------- oracle
     def oracle(self, case, res):
         if case["kind"] == "bd":
             D = dense_of(case["M"], case["csc"])
-            ref = np.linalg.inv(D)
+            e = case.get("e", 0)
             for bk in ("py", "nb"):
                 r = res[bk]
                 if "err" in r:
                     return (f"invert_diagonal_blocks({bk}) raised {r['err']} ({r.get('msg')}) on a "
                             f"nonsingular block-diagonal matrix, sizes {case['sz']}")
                 Ai = np.array(r["ok"])
-                if Ai.shape != D.shape or not np.allclose(Ai, ref, rtol=1e-9, atol=1e-9):
+                ref = np.linalg.inv(D) / 2.0 ** e
+                if Ai.shape != D.shape or not np.allclose(Ai * 2.0 ** e, ref * 2.0 ** e, rtol=1e-9, atol=1e-9):
                     return f"{bk} backend: result differs from the dense inverse"
-                d = frac_inverse_defect(D.astype(int).tolist(), r["ok"])
+                d = frac_inverse_defect(D.astype(int).tolist(), r["ok"], e=e)
                 if d is not None:
                     return f"{bk} backend: |A.Ainv - I| = {d}"
             return None
@@ -374,9 +430,10 @@ class C37(Prop):
         if "err" in r:
             return f"invert_permuted_block_diag_matrix raised {r['err']} ({r.get('msg')})"
         Ai = np.array(r["ok"])
-        if Ai.shape != D.shape or not np.allclose(Ai, np.linalg.inv(D), rtol=1e-9, atol=1e-9):
+        e = case.get("e", 0)
+        if Ai.shape != D.shape or not np.allclose(Ai * 2.0 ** e, np.linalg.inv(D), rtol=1e-9, atol=1e-9):
             return "permuted inverter: result differs from the dense inverse"
-        d = frac_inverse_defect(D.astype(int).tolist(), r["ok"])
+        d = frac_inverse_defect(D.astype(int).tolist(), r["ok"], e=e)
         if d is not None:
             return f"permuted inverter: |A.Ainv - I| = {d}"
         return None
@@ -388,15 +445,18 @@ class C37(Prop):
                 return "false"
             blocks = ({"ok": res["blocks"]} if "ok" in res["py"] else {"err": res["py"]["err"]})
             cbl = cres(blocks, lambda bs: clist(bs, lambda b: cmatz([ints(r) for r in b])))
-            return (f"tie_bd {cbool(case['csc'])} {ccsr(case['M'])} {clist(case['sz'], cnat)} "
+            lay = res.get("layout", ([], []))
+            return (f"tie_bd_s {cbool(case['csc'])} {ccsr(case['M'])} {clist(case['sz'], cnat)} "
+                    f"{cq(Fraction(2) ** case.get('e', 0))} "
                     f"{clist(res['nnz'], cnat)} {cbl} {cres(res['py'], cmatq)} "
-                    f"{cres(res['nb'], cmatq)}")
+                    f"{cres(res['nb'], cmatq)} {clist(lay[0], cnat)} {clist(lay[1], cnat)}")
         n = len(case["D"])
         p = res["perm"]
         cperm = cres(p, lambda t: f"({clist(t[0], cnat)}, {clist(t[1], cnat)}, {clist(t[2], cnat)})")
         abd = res.get("abd", [])
         inv = res.get("inv", {"err": "Undefined"})
-        return (f"tie_perm {cnat(n)} {cmatz(case['D'])} {cperm} {cmatz(abd)} {cres(inv, cmatq)}")
+        return (f"tie_perm_s {cnat(n)} {cmatz(case['D'])} {cq(Fraction(2) ** case.get('e', 0))} "
+                f"{cperm} {cmatz(abd)} {cres(inv, cmatq)}")
 
     def coq_diag(self, case, res):
         if case["kind"] == "bd":
